@@ -182,6 +182,10 @@ func crashChildMain(args []string) int {
 			}(ci, steps)
 		}
 		wg.Wait()
+		if sp.KillAfterAcks > 0 && acks.Load() >= sp.KillAfterAcks {
+			// the clients finished inside the delay before the kill: it is on its way
+			time.Sleep(time.Duration(sp.KillDelayUs)*time.Microsecond + 5*time.Second)
+		}
 		// not killed: the workload was shorter than the kill point
 		env.Close()
 	case "verify":
